@@ -1444,7 +1444,7 @@ func resolveAsOfCommitRef(ctx *sql.Context, db Database, head ref.DoltRef, commi
 
 	if commitRef == doltdb.Working || commitRef == doltdb.Staged {
 		sess := dsess.DSessFromSess(ctx.Session)
-		root, _, _, err := sess.ResolveRootForRef(ctx, ctx.GetCurrentDatabase(), commitRef)
+		root, _, _, err := sess.ResolveRootForRef(ctx, db.RevisionQualifiedName(), commitRef)
 		if err != nil {
 			return nil, nil, err
 		}
